@@ -81,7 +81,7 @@ pub struct Profile {
 
 use Cat::*;
 
-const ALL_FAM: &[usize] = &[0, 1, 2, 3, 4, 5, 6, 7, 8, 9, 10, 11, 12, 13, 14];
+const ALL_FAM: &[usize] = &[0, 1, 2, 3, 4, 5, 6, 7, 8, 9, 10, 11, 12, 13, 14, 15, 16];
 
 pub const PROFILES: &[Profile] = &[
     Profile {
